@@ -171,6 +171,11 @@ func sidOf(cls string, rnd *rand.Rand) (wire uint32, want uint32) {
 	return id, id
 }
 
+// bigLen is the "far larger than the payload" length-field class (namebig/valbig): well above
+// the allocation cap for a small frame, small enough that an implementation that does
+// allocate it up front does not endanger the harness process.
+const bigLen = 4 << 20
+
 func rawBlock(s shape, pairs []pair) []byte {
 	count := uint32(len(pairs))
 	switch s.Bm {
@@ -189,11 +194,11 @@ func rawBlock(s shape, pairs []pair) []byte {
 		if last {
 			switch s.Bm {
 			case "namebig":
-				nl = 0x10000000
+				nl = bigLen
 			case "namemax":
 				nl = 0xffffffff
 			case "valbig":
-				vl = 0x10000000
+				vl = bigLen
 			case "valmax":
 				vl = 0xffffffff
 			}
@@ -589,6 +594,26 @@ func shapeKey(s shape) string {
 
 var allocUnbounded = false // set once a *big shape showed an unbounded allocation
 
+// allocSeen: shape classes (mode/kind/block malformation/name classes) that already showed an
+// allocation above the cap.  A reader that allocates what a length field announces zeroes
+// gigabytes per such case; once a class has produced its violation, further members of the same
+// class (they differ in values/flags only) are skipped and counted, so that the check still
+// terminates in reasonable time on a tree with that defect.
+var allocSeen = map[string]bool{}
+var allocSkipped = 0
+
+func allocClass(s shape) string {
+	ns := []string{}
+	if s.Np > 0 {
+		ns = append(ns, s.N1)
+	}
+	if s.Np > 1 {
+		ns = append(ns, s.N2)
+	}
+	sort.Strings(ns)
+	return s.Mode + "/" + s.K + "/" + s.Bm + "/" + s.Len + "/" + strings.Join(ns, "+")
+}
+
 type itemObs struct {
 	Out   string `json:"out"` // ok | err | panic | hang | skipped
 	Err   string `json:"err,omitempty"`
@@ -625,6 +650,12 @@ func runFrameCase(c frameCase) vh.Result {
 		var o itemObs
 		if (s.Bm == "namemax" || s.Bm == "valmax") && allocUnbounded {
 			o.Out = "skipped"
+			obs = append(obs, o)
+			break
+		}
+		if allocSeen[allocClass(s)] {
+			o.Out = "skipped"
+			allocSkipped++
 			obs = append(obs, o)
 			break
 		}
@@ -688,6 +719,9 @@ func runFrameCase(c frameCase) vh.Result {
 		if o.Alloc > o.Cap {
 			if s.Bm == "namebig" || s.Bm == "valbig" {
 				allocUnbounded = true
+			}
+			if o.Alloc > 64<<20 {
+				allocSeen[allocClass(s)] = true
 			}
 			fail("alloc", it, fmt.Sprintf("ReadFrame allocated %d octets for a frame of %d octets (cap %d); result %s %s", o.Alloc, frameOctets, o.Cap, o.Out, o.Err))
 		}
@@ -764,5 +798,5 @@ func framesRun() {
 		vh.Emit(runFrameCase(c))
 		n++
 	})
-	vh.Emit(map[string]interface{}{"summary": true, "cases": n, "alloc_unbounded": allocUnbounded})
+	vh.Emit(map[string]interface{}{"summary": true, "cases": n, "alloc_unbounded": allocUnbounded, "alloc_skipped": allocSkipped})
 }
